@@ -161,6 +161,17 @@ for c in req.get("stack", []):
                         r["ll"].append(lonlats(st, (slice(ds[0][0], ds[0][1]), slice(ds[1][0], ds[1][1]))))
                 except Exception as e:
                     r["ll"].append(err(e))
+        if c.get("lonlats"):
+            # a history on the same object: memoise (get_lonlats, hash), then append once more
+            try:
+                st.get_lonlats()
+                hash(st)
+                before = (st.lons is not None, st.hash is not None)
+                st.append(members[0])
+                r["after_append"] = {"memo_before": list(before), "lons_none": st.lons is None and st.lats is None,
+                                     "hash_none": st.hash is None, "ndefs": len(st.defs)}
+            except Exception as e:
+                r["after_append"] = err(e)
         res.append(r)
     except Exception as e:
         res.append(err(e))
